@@ -10,6 +10,7 @@ ages, their values and the keys of the cache are compared exactly.
 Run: ./check X_env --tier quick|thorough.  Not registered in MANIFEST.json (the property list is fixed); DESIGN 14.7."""
 import concurrent.futures as cf
 import hashlib
+import multiprocessing
 import random
 import re
 import shutil
@@ -55,51 +56,84 @@ def dump_states(path):
     return out
 
 
+_INSTS = {}   # cfg key -> Instance; filled before the worker processes are forked
+
+
+def _replay_task(task):
+    """runs in a worker process: (hist text or parsed hist, origin, seed of the check, scratch dir, want sample)"""
+    src, origin, seed0, scratch_dir, want_sample = task
+    hist = tlaval.parse_value(src) if isinstance(src, str) else src
+    cfg = hist[0]['l']['cfg']
+    key = envs.cfg_key(cfg)
+    inst = _INSTS.get(key)
+    if inst is None:
+        return dict(machinery='no instance for configuration %r' % (key,))
+    rnd = random.Random('%d/%s' % (seed0, origin))
+    mode = rnd.choice(CACHE_MODES)
+    seed = rnd.randrange(1 << 30)
+    h = hashlib.blake2b(repr(key).encode(), digest_size=10)
+    cases = []
+
+    def on_step(n, l):
+        h.update(repr(sorted((k, repr(v)) for k, v in l.items() if k != 'inst')).encode())
+        cases.append((h.hexdigest() + mode, str(l['op'])))
+    t0 = time.time()
+    try:
+        bad = envs.replay(hist, inst, mode, seed, scratch_dir, on_step)
+    except core.MachineryError as e:
+        return dict(machinery=str(e))
+    out = dict(cases=cases, wall=time.time() - t0, key=key, mode=mode, nsteps=len(hist))
+    if bad is None:
+        if want_sample and len(hist) > 2:
+            out['sample'] = dict(spec='Env', cfg=tlaval.to_jsonable(cfg), cache=mode,
+                                 behaviour=[{k: tlaval.to_jsonable(v) for k, v in st['l'].items() if k not in ('inst', 'val', 'valL', 'valR')}
+                                            for st in hist[1:]],
+                                 last_result=tlaval.to_jsonable({k: v for k, v in hist[-1]['l'].items() if k in ('val', 'age', 'res')}))
+        return out
+    step, op, m = bad
+    exp_l = hist[step]['l']
+    why = ''
+    if exp_l['res'] == 'ValueError':  # the two reasons the spec knows for a ValueError
+        idx = exp_l.get('i', exp_l.get('i0', 0))
+        why = 'out-of-range' if cfg['finite'] and not 0 <= idx < cfg['L'] else 'no-part'
+    out['violation'] = (
+        dict(kind='replay', spec='Env', op=op, clause=m.clause, expected_res=str(exp_l['res']), why=why, envkind=str(cfg['kind']),
+             finite=bool(cfg['finite'])),
+        dict(cfg=tlaval.to_jsonable(cfg), cache_mode=mode, form_seed=seed, origin=origin, step=step,
+             behaviour=tlaval.to_jsonable([{k: v for k, v in st['l'].items() if k != 'inst'} for st in hist[:step + 1]]),
+             operation=tlaval.to_jsonable({k: v for k, v in exp_l.items() if k != 'inst'}),
+             got=m.got, expected=m.expected,
+             how='harness.envs.replay(hist, inst, cache_mode, form_seed): tensors = Instance of spec/Env.tla for cfg'))
+    return out
+
+
 class Replayer:
-    def __init__(self, ctx, insts, scratch_dir):
-        self.ctx, self.insts, self.scratch_dir = ctx, insts, scratch_dir
+    """replays behaviours in worker processes; all accounting happens here in the parent"""
+
+    def __init__(self, ctx, pool, scratch_dir):
+        self.ctx, self.pool, self.scratch_dir = ctx, pool, scratch_dir
         self.n = 0
         self.sampled = set()
         self.wall = 0.0
 
-    def run(self, hist, origin):
-        """replay one behaviour; reports a violation; returns True when it conforms"""
+    def run_many(self, items):
+        """items: [(hist text | hist, origin)]"""
         ctx = self.ctx
-        self.n += 1
-        cfg = hist[0]['l']['cfg']
-        key = envs.cfg_key(cfg)
-        inst = self.insts.get(key)
-        if inst is None:
-            raise core.MachineryError('no instance for configuration %r' % (key,))
-        rnd = random.Random('%d/%s' % (ctx.seed, origin))
-        mode = rnd.choice(CACHE_MODES)
-        seed = rnd.randrange(1 << 30)
-        h = hashlib.blake2b(repr(key).encode(), digest_size=10)
-
-        def on_step(n, l):
-            h.update(repr(sorted((k, repr(v)) for k, v in l.items() if k != 'inst')).encode())
-            ctx.case(h.hexdigest() + mode, action='Env.' + l['op'])
-        t0 = time.time()
-        bad = envs.replay(hist, inst, mode, seed, self.scratch_dir, on_step)
-        self.wall += time.time() - t0
-        if bad is None:
+        tasks = [(src, origin, ctx.seed, self.scratch_dir, j < 40) for j, (src, origin) in enumerate(items)]
+        for r in self.pool.map(_replay_task, tasks, chunksize=8):
+            if 'machinery' in r:
+                raise core.MachineryError(r['machinery'])
+            self.n += 1
+            self.wall += r['wall']
+            for key, op in r['cases']:
+                ctx.case(key, action='Env.' + op)
+            if 'violation' in r:
+                ctx.violation(*r['violation'])
+                continue
             ctx.trace_ok(1)
-            if key[:3] not in self.sampled and len(hist) > 2:
-                self.sampled.add(key[:3])
-                ctx.sample(dict(spec='Env', cfg=tlaval.to_jsonable(cfg), cache=mode,
-                                behaviour=[{k: tlaval.to_jsonable(v) for k, v in st['l'].items() if k not in ('inst', 'val', 'valL', 'valR')}
-                                           for st in hist[1:]],
-                                last_result=tlaval.to_jsonable({k: v for k, v in hist[-1]['l'].items() if k in ('val', 'age', 'res')})))
-            return True
-        step, op, m = bad
-        exp_l = hist[step]['l']
-        ctx.violation(dict(kind='replay', spec='Env', op=op, clause=m.clause, envkind=str(cfg['kind']), finite=bool(cfg['finite'])),
-                      dict(cfg=tlaval.to_jsonable(cfg), cache_mode=mode, form_seed=seed, origin=origin, step=step,
-                           behaviour=tlaval.to_jsonable([{k: v for k, v in st['l'].items() if k != 'inst'} for st in hist[:step + 1]]),
-                           operation=tlaval.to_jsonable({k: v for k, v in exp_l.items() if k != 'inst'}),
-                           got=m.got, expected=m.expected,
-                           how='harness.envs.replay(hist, inst, cache_mode, form_seed): tensors = Instance of spec/Env.tla for cfg'))
-        return False
+            if 'sample' in r and r['key'][:3] not in self.sampled:
+                self.sampled.add(r['key'][:3])
+                ctx.sample(r['sample'])
 
 
 def fetch_instances(ctx, Ls, maxver):
@@ -170,18 +204,22 @@ def check(ctx):
     ctx.exhaustive = False
     t0 = time.time()
     insts = fetch_instances(ctx, [2, 3, 4], 1)
+    _INSTS.update(insts)
     scratch = tlc.scratch('Env-cache')
-    rep = Replayer(ctx, insts, scratch)
+    import tenpy.networks.mpo  # noqa: F401  (imported before the fork: the workers inherit it)
+    pool = cf.ProcessPoolExecutor(max_workers=4, mp_context=multiprocessing.get_context('fork'))
+    list(pool.map(int, range(8)))  # all workers are forked now, before any thread exists
+    rep = Replayer(ctx, pool, scratch)
     rnd = random.Random(ctx.seed)
     allcfg = dict(finites=[True, False], kinds=['mps', 'mpo'], shareds=[True, False])
     try:
         canary(ctx, insts)
         if quick:
-            one = dict(finites=[rnd.choice([True, False])], kinds=[rnd.choice(['mps', 'mpo'])], shareds=[rnd.choice([True, False])])
             mc_jobs = [
                 ('L2-ops2', mk_cfg([2], s0s=[0, 2], tabs=['gen'], maxops=2, **allcfg), 400),
                 ('L3-ops2', mk_cfg([3], s0s=[1], tabs=['gen'], maxops=2, **allcfg), 350),
-                ('L2-ops3', mk_cfg([2], s0s=[rnd.choice([0, 1])], maxops=3, **one), 250),
+                ('L2-finite-ops3', mk_cfg([2], [True], [rnd.choice(['mps', 'mpo'])], [rnd.choice([True, False])], maxops=3), 150),
+                ('L2-infinite-ops3', mk_cfg([2], [False], ['mps'], [rnd.choice([True, False])], s0s=[rnd.choice([0, 1])], maxops=3), 200),
                 ('L2-z2-ops2', mk_cfg([2], [True, False], ['mps', 'mpo'], [False], tabs=['z2'], maxops=2), 150),
                 ('L4-finite-ops2', mk_cfg([4], [True], ['mpo'], [True, False], maxops=2), 100),
             ]
@@ -213,8 +251,7 @@ def check(ctx):
             for name, fut in sfuts:
                 res, traces, d = fut.result()
                 shutil.rmtree(d, ignore_errors=True)
-                for j, tr in enumerate(traces):
-                    rep.run(tr[-1][1]['hist'], '%s/%d' % (name, j))
+                rep.run_many([(tr[-1][1]['hist'], '%s/%d' % (name, j)) for j, tr in enumerate(traces)])
                 nsim += len(traces)
         never = sorted(a for a in ACTION_OF.values() if ctx.coverage_actions.get(a, (0, 0))[0] == 0)
         if never:
@@ -227,6 +264,7 @@ def check(ctx):
         ctx.notes['replay_wall_s'] = round(rep.wall, 1)
         ctx.notes['configurations'] = len(insts)
     finally:
+        pool.shutdown(wait=True, cancel_futures=True)
         shutil.rmtree(scratch, ignore_errors=True)
 
 
@@ -250,8 +288,7 @@ def finish_mc(ctx, rep, name, res, dump, d, nrep):
         idx = by_op[o]
         k = len(idx) if nrep is None else max(3, nrep // max(1, len(ops)))
         chosen += idx if k >= len(idx) else rnd.sample(idx, k)
-    for j in sorted(chosen):
-        rep.run(tlaval.parse_value(states[j][1]), '%s/%d' % (name, j))
+    rep.run_many([(states[j][1], '%s/%d' % (name, j)) for j in sorted(chosen)])
 
 
 if __name__ == '__main__':
